@@ -175,11 +175,16 @@ class Chooser:
             else:
                 right = False
                 tc, oc = [], []
-            return {'a': 'connect', 'other': other, 'tc': tc, 'oc': oc, 'right': right, 'name': name, 'pfx': addp, 'via': via}
+            act = {'a': 'connect', 'other': other, 'tc': tc, 'oc': oc, 'right': right, 'name': name, 'pfx': addp, 'via': via}
+            oc_how = rng.choice([0, 0, 0, 1, 2])
+            if oc_how:
+                act['oclone'] = oc_how
+            return act
         if k == 'into_bench':
             return {'a': 'into_bench'}
         if k == 'copy':
-            return {'a': 'copy'}
+            how = rng.choice(['', '', 'deep', 'pickle'])
+            return {'a': 'copy', 'how': how} if how else {'a': 'copy'}
         if k == 'replace_subcircuit':
             return self.replace_subcircuit(c, bad)
         raise AssertionError(k)
